@@ -1506,7 +1506,32 @@ class Interp:
         return d
 
     def e_JoinedStr(self, e, env, module):
-        return "<fstring>"
+        """f-string: concrete parts are formatted as CPython does; a symbolic part (only met in messages) is shown as a placeholder"""
+        out = []
+        for v in e.values:
+            if isinstance(v, ast.Constant):
+                out.append(str(v.value))
+                continue
+            if isinstance(v, ast.FormattedValue):
+                try:
+                    val = self.eval(v.value, env, module)
+                except Unsupported:
+                    out.append("<?>")
+                    continue
+                if is_sym(val) or _is_harness_obj(val):
+                    out.append("<symbolic>")
+                    continue
+                if v.conversion == 114:
+                    val = repr(val)
+                elif v.conversion == 115:
+                    val = str(val)
+                elif v.conversion == 97:
+                    val = ascii(val)
+                spec = self.e_JoinedStr(v.format_spec, env, module) if v.format_spec is not None else ""
+                out.append(format(val, spec))
+                continue
+            out.append("<?>")
+        return "".join(out)
 
     def e_Lambda(self, e, env, module):
         fd = ast.FunctionDef(name="<lambda>", args=e.args, body=[ast.Return(value=e.body, lineno=e.lineno, col_offset=0)],
@@ -2087,7 +2112,15 @@ def verify_function(module: ModuleCtx, qualname: str, make_args, post, contracts
                     if ob is not None and not ob.detail.startswith("raises"):
                         ob.detail = "raises %s: %s | model: %s" % (type(e).__name__, str(e)[:200], ob.detail[:1500])
                 raise PathKilled()
-            post(st, ctx, r)
+            try:
+                post(st, ctx, r)
+            except (PathKilled, Unsupported, ReturnSig, BreakSig, ContinueSig):
+                raise
+            except z3.Z3Exception:
+                raise
+            except (KeyError, NameError, AttributeError, IndexError, TypeError) as e:
+                # a sidecar post-condition that cannot find what it talks about does not fit the code any more: undecided, not refuted
+                raise Unsupported("the post-condition of %s does not fit the code any more (%s: %s)" % (qualname, type(e).__name__, e))
             return r
         finally:
             it.func_stack.pop()
